@@ -94,6 +94,15 @@ Theorem literal_value : forall radix ds,
   lex_int radix ds = lit (digits_value radix 0 ds).
 Proof. exact lex_int_spec. Qed.
 
+(* ... and so does its source text: for every radix prefix the lexer knows (none, 0b/0B, 0o/0O, 0x/0X),
+   digits of that radix in either case, `_` separators anywhere but at the end, leading zeros and
+   any width, the model of lexer.rs::eat_number yields the literal of the number the digits spell in
+   that radix (an error from 2^128 on, by [lit]) *)
+Theorem literal_text_value : forall radix p body,
+  radix_prefix radix p -> Forall (valid_char radix) body -> last body 0 <> 95 -> strip_ body <> [] ->
+  lex_number_text (p ++ body) = Some (lit (digits_value radix 0 (map digit_val (strip_ body)))).
+Proof. exact lex_number_text_value. Qed.
+
 (* integer/integer comparison is exact for every pair of forms *)
 Theorem int_cmp_exact : forall fa a fb b,
   in_range fa a -> in_range fb b -> known_bin fa a fb b = false ->
@@ -189,6 +198,14 @@ Example euclid_float_witness :
   to_bits (Bdiv_euclid (of_bits 13842939354630062080) (of_bits 4611686018427387904)) = 13839561654909534208.
 Proof. vm_compute. repeat split. Qed.
 
+Example literal_text_witness :
+  (* 0o2000000000000000000000 = 2^64, 0X1_0000_0000_0000_0000 = 2^64, 0b102 and 0x and 1_ are errors *)
+  lex_number_text [48;111;50;48;48;48;48;48;48;48;48;48;48;48;48;48;48;48;48;48;48;48;48;48] = Some (Ok (VInt U128 (2 ^ 64))) /\
+  lex_number_text [48;88;49;95;48;48;48;48;95;48;48;48;48;95;48;48;48;48;95;48;48;48;48] = Some (Ok (VInt U128 (2 ^ 64))) /\
+  lex_number_text [48;98;49;48;50] = Some (Err E_SyntaxError) /\ lex_number_text [48;120] = Some (Err E_SyntaxError) /\
+  lex_number_text [49;95] = Some (Err E_SyntaxError).
+Proof. vm_compute. repeat split; reflexivity. Qed.
+
 (* what the fix: commits repaired: the model of the code as it was violates the statements *)
 Example wrap_refuted_before_fix :
   model_case_before_fix (Bin Add) FU128 (2 ^ 128 - 1) FU128 (2 ^ 128 - 1) = Ok (VInt I64 (-2)).
@@ -221,6 +238,7 @@ Print Assumptions euclid_int.
 Print Assumptions euclid_law_characterises_spec.
 Print Assumptions rem_total.
 Print Assumptions literal_value.
+Print Assumptions literal_text_value.
 Print Assumptions int_cmp_exact.
 Print Assumptions int_float_cmp_exact.
 Print Assumptions pow_capped_spec.
